@@ -153,7 +153,11 @@ static void gen_column(Tape &t, int dim, int maxnz, std::map<int, Q> &col) {
 }
 static void c13_gen_lu(Tape &t, Case &c) {
   int dim = 1 + (int)t.below(t.chance(1, 5) ? 40 : 12);
-  int structure = (int)t.below(8);
+  int structure = (int)t.below(10);
+  if (structure >= 8) {   // identity plus a few +-1 entries, unit-like replacement columns: exact cancellations in the eta passes
+    structure = 8;
+    dim = t.chance(3, 4) ? 21 + (int)t.below(40) : 2 + (int)t.below(19);    // >= 21: a unit right-hand side is below the 5% hyper-sparse threshold
+  }
   Op lu("lu");
   lu.I(dim).I(structure);
   c.ops.push_back(lu);
@@ -169,13 +173,14 @@ static void c13_gen_lu(Tape &t, Case &c) {
   for (int j = 0; j < dim; j++) {
     std::map<int, Q> &col = cols[j];
     switch (structure) {
-    case 0: gen_column(t, dim, 4, col); break;                                            // random sparse
+    case 0: gen_column(t, dim, 4, col); if (t.chance(3, 4)) col[j] = gen_nz(t, 0); break;   // random sparse, mostly with a diagonal entry
     case 1: for (int i = 0; i <= j; i++) if (i == j || t.chance(1, 3)) col[i] = gen_nz(t, 0); break;   // upper triangular
     case 2: for (int i = j; i < dim; i++) if (i == j || t.chance(1, 3)) col[i] = gen_nz(t, 0); break;  // lower triangular
     case 3: for (int i = 0; i < dim; i++) if (t.chance(3, 4)) col[i] = gen_nz(t, 1); col[j] = gen_nz(t, 1); break;   // dense
     case 4: col[j] = gen_nz(t, 0); col[0] = gen_nz(t, 0); if (j == 0) for (int i = 0; i < dim; i++) col[i] = gen_nz(t, 0); break;   // arrow
     case 5: col[(j * 7 + 3) % dim] = gen_nz(t, 0); if (t.chance(1, 3)) col[(int)t.below((uint32_t)dim)] = gen_nz(t, 0); break;        // (nearly) permutation: singletons
     case 6: if (j > 0 && t.chance(1, 3)) col = cols[(int)t.below((uint32_t)j)]; else gen_column(t, dim, 3, col); break;              // duplicate columns -> singular
+    case 8: col[j] = 1; if (t.chance(1, 6)) col[(int)t.below((uint32_t)dim)] = t.coin() ? Q(1) : Q(-1); break;                        // identity + few +-1
     default: gen_column(t, dim, 3, col); if (j > 0 && t.chance(1, 2)) { col = cols[j - 1]; if (!col.empty()) col.begin()->second += qpow2(-(int)t.below(70)); } break;   // near singular
     }
     Op o("colv");
@@ -188,11 +193,18 @@ static void c13_gen_lu(Tape &t, Case &c) {
     if (t.exhausted() && s > 0) break;
     std::map<int, Q> col;
     int kind = (int)t.below(5);
-    if (kind == 0) for (int i = 0; i < dim; i++) col[i] = gen_nz(t, 0);           // heavy fill-in
+    int where = (int)t.below((uint32_t)dim);
+    if (structure == 8) {          // e_where +- e_q (+- e_q2): keeps the matrix regular most of the time and the arithmetic in {0,+-1,+-2}
+      col[where] = 1;
+      int extra = 1 + (int)t.below(2);
+      for (int x = 0; x < extra; x++) col[(int)t.below((uint32_t)dim)] = t.coin() ? Q(1) : Q(-1);
+      if (col[where] == 0) col[where] = 1;
+    }
+    else if (kind == 0) for (int i = 0; i < dim; i++) col[i] = gen_nz(t, 0);           // heavy fill-in
     else if (kind == 1 && dim > 1) col = cols[(int)t.below((uint32_t)dim)];       // copy of an existing column: likely singular
     else gen_column(t, dim, 4, col);
     Op o("upd");
-    o.I(t.below((uint32_t)dim));
+    o.I(where);
     for (auto &kv : col) { o.I(kv.first); o.N(kv.second); }
     c.ops.push_back(o);
   }
@@ -248,38 +260,67 @@ struct LU {
   ~LU() { if (h) qsx_lu_free(h); }
 };
 
-static bool verify_solves(LU &lu, const std::vector<std::map<int, Q>> &cols, Result &r, const std::string &ctx, uint64_t salt) {
+// one solve in each direction for the right-hand side given as (ind, val); exact residual check
+static bool verify_one(LU &lu, const std::vector<std::map<int, Q>> &cols, Result &r, const std::string &ctx,
+                       const std::vector<int> &ind, const std::vector<Q> &val, const char *rhskind) {
   int dim = lu.dim;
-  // two right hand sides: a sparse unit-like one and a dense one, derived deterministically
+  std::vector<Q> rhs(dim, Q(0));
+  for (size_t k = 0; k < ind.size(); k++) rhs[ind[k]] = val[k];
+  QArr a((int)val.size() + 1), out(dim);
+  for (size_t k = 0; k < val.size(); k++) a.set((int)k, val[k]);
+  std::vector<int> indc = ind;
+  for (int tr = 0; tr < 2; tr++) {
+    int rc = tr ? qsx_lu_btran(lu.h, (int)indc.size(), indc.data(), a.v, out.v) : qsx_lu_ftran(lu.h, (int)indc.size(), indc.data(), a.v, out.v);
+    if (rc) { r.fail(std::string(tr ? "btran" : "ftran") + "-failed:" + ctx, "solve returned an error"); return false; }
+    // B x = a  (ftran)   /   x^T B = a^T  (btran)
+    std::vector<Q> acc(dim, Q(0));
+    if (!tr) { for (int j = 0; j < dim; j++) { Q xj = out.get(j); if (xj == 0) continue; for (auto &kv : cols[j]) acc[kv.first] += kv.second * xj; } }
+    else { for (int k = 0; k < dim; k++) for (auto &kv : cols[k]) acc[k] += kv.second * out.get(kv.first); }
+    for (int k = 0; k < dim; k++) {
+      if (acc[k] != rhs[k]) {
+        r.fail(std::string(tr ? "btran" : "ftran") + "-inexact:" + ctx,
+               strprintf("%s with a %s right-hand side (%d non-zeros): component %d of the residual is %s (dim %d)", tr ? "x^T B = a^T" : "B x = a",
+                         rhskind, (int)ind.size(), k, qstr(acc[k] - rhs[k]).c_str(), dim));
+        return false;
+      }
+    }
+  }
+  return true;
+}
+
+// level 0: a one-third-dense and a dense right-hand side plus a handful of unit and two-entry ones (the
+// hyper-sparse solve paths need fewer than 5% non-zeros); level 1: every unit vector and every pair e_i +- e_j
+static bool verify_solves(LU &lu, const std::vector<std::map<int, Q>> &cols, Result &r, const std::string &ctx, uint64_t salt, int level = 0) {
+  int dim = lu.dim;
   for (int which = 0; which < 2; which++) {
     std::vector<int> ind;
     std::vector<Q> val;
-    std::vector<Q> rhs(dim, Q(0));
     for (int i = 0; i < dim; i++) {
       uint64_t hsh = fnv64(std::to_string(salt) + ":" + std::to_string(i) + ":" + std::to_string(which));
       if (which == 0 && (hsh % 3) != 0 && i != (int)(salt % (uint64_t)dim)) continue;
       Q v = Q((long)(hsh % 11) - 5, (long)(1 + (hsh >> 8) % 4));
       v.canonicalize();
       if (v == 0) v = 1;
-      rhs[i] = v; ind.push_back(i); val.push_back(v);
+      ind.push_back(i); val.push_back(v);
     }
-    QArr a((int)val.size() + 1), out(dim);
-    for (size_t k = 0; k < val.size(); k++) a.set((int)k, val[k]);
-    for (int tr = 0; tr < 2; tr++) {
-      int rc = tr ? qsx_lu_btran(lu.h, (int)ind.size(), ind.data(), a.v, out.v) : qsx_lu_ftran(lu.h, (int)ind.size(), ind.data(), a.v, out.v);
-      if (rc) { r.fail(std::string(tr ? "btran" : "ftran") + "-failed:" + ctx, "solve returned an error"); return false; }
-      // B x = a  (ftran)   /   x^T B = a^T  (btran)
-      for (int k = 0; k < dim; k++) {
-        Q acc = 0;
-        if (!tr) { for (int j = 0; j < dim; j++) { auto it = cols[j].find(k); if (it != cols[j].end()) acc += it->second * out.get(j); } }
-        else { for (auto &kv : cols[k]) acc += kv.second * out.get(kv.first); }
-        if (acc != rhs[k]) {
-          r.fail(std::string(tr ? "btran" : "ftran") + "-inexact:" + ctx, strprintf("%s: component %d of the residual is %s (dim %d)", tr ? "x^T B = a^T" : "B x = a", k, qstr(acc - rhs[k]).c_str(), dim));
-          return false;
-        }
-      }
-    }
+    if (!verify_one(lu, cols, r, ctx, ind, val, which ? "dense" : "one-third-dense")) return false;
   }
+  if (level == 0) {
+    for (int k = 0; k < 4; k++) {
+      uint64_t hsh = fnv64(std::to_string(salt) + ":u:" + std::to_string(k));
+      int i = (int)(hsh % (uint64_t)dim), j = (int)((hsh >> 20) % (uint64_t)dim);
+      Q s = (hsh >> 40) & 1 ? Q(1) : Q(-1);
+      if (!verify_one(lu, cols, r, ctx, {i}, {Q(1)}, "unit")) return false;
+      if (i != j && !verify_one(lu, cols, r, ctx, {std::min(i, j), std::max(i, j)}, {Q(1), s}, "two-entry")) return false;
+    }
+    return true;
+  }
+  for (int i = 0; i < dim; i++) if (!verify_one(lu, cols, r, ctx + ":all-units", {i}, {Q(1)}, "unit")) return false;
+  for (int i = 0; i < dim; i++)
+    for (int j = i + 1; j < dim; j++) {
+      Q s = ((i * 31 + j + (int)salt) & 1) ? Q(1) : Q(-1);
+      if (!verify_one(lu, cols, r, ctx + ":all-pairs", {i, j}, {Q(1), s}, "two-entry")) return false;
+    }
   return true;
 }
 
@@ -299,8 +340,9 @@ static void c13_run_lu(const Case &c, Result &r) {
     if (o.i.empty() || o.i[0] < 0 || o.i[0] >= dim) { r.verdict = DISCARD; return; }
     for (size_t k = 1; k < o.i.size() && k - 1 < o.q.size(); k++) if (o.i[k] >= 0 && o.i[k] < dim && o.q[k - 1] != 0) cols[o.i[0]][(int)o.i[k]] = o.q[k - 1];
   }
-  static const char *sn[] = {"random", "upper-tri", "lower-tri", "dense", "arrow", "singletons", "duplicate-cols", "near-singular"};
-  r.label(std::string("structure:") + sn[structure & 7]);
+  static const char *sn[] = {"random", "upper-tri", "lower-tri", "dense", "arrow", "singletons", "duplicate-cols", "near-singular", "identity+-1"};
+  if (structure < 0 || structure > 8) structure = 0;
+  r.label(std::string("structure:") + sn[structure]);
   r.label(nondefault ? "params:non-default" : "params:default");
   std::string pfx = nondefault ? "nondefault-params:" : "";
   std::vector<Q> dummy(dim, Q(0)), xx;
@@ -308,7 +350,7 @@ static void c13_run_lu(const Case &c, Result &r) {
   int nsing = 0, rc = 0;
   bool ok = lu.factor(cols, nsing, rc);
   if (rc) { r.fail(pfx + "factor-error", strprintf("ILLfactor returned %d on a %dx%d matrix", rc, dim, dim)); return; }
-  if (ok != ref_nonsing) { r.fail(pfx + (ref_nonsing ? "regular-matrix-called-singular" : "singular-matrix-not-reported"), strprintf("ILLfactor reports nsing=%d, exact elimination says the matrix is %ssingular (dim %d, %s)", nsing, ref_nonsing ? "non-" : "", dim, sn[structure & 7])); return; }
+  if (ok != ref_nonsing) { r.fail(pfx + (ref_nonsing ? "regular-matrix-called-singular" : "singular-matrix-not-reported"), strprintf("ILLfactor reports nsing=%d, exact elimination says the matrix is %ssingular (dim %d, %s)", nsing, ref_nonsing ? "non-" : "", dim, sn[structure])); return; }
   r.label(ref_nonsing ? "matrix:regular" : "matrix:singular");
   int updates_since = 0, maxchain = 0, nupd = 0, nsingupd = 0, nrefac = 0;
   if (ok && !verify_solves(lu, cols, r, pfx + "after-factor", 17)) return;
@@ -359,9 +401,16 @@ static void c13_run_lu(const Case &c, Result &r) {
     } else { updates_since++; maxchain = std::max(maxchain, updates_since); }
     if (!verify_solves(lu, cols, r, pfx + (need_refactor ? "after-refactor" : "after-update"), (uint64_t)nupd * 31 + 5)) break;
   }
+  // exhaustive unit / two-entry right-hand sides against the final factorization (with its eta file) for the
+  // dimensions where they take the hyper-sparse path
+  if (ok && r.verdict == PASS && dim >= 21 && dim <= 64 && updates_since >= 2) {
+    r.label("deep-verify:all-units-and-pairs");
+    verify_solves(lu, cols, r, pfx + "final", 7, 1);
+  }
+  r.label(dim >= 21 ? "dim:21+" : "dim:<21");
   r.label(strprintf("update-chain:%s", maxchain == 0 ? "0" : (maxchain < 3 ? "1-2" : (maxchain < 10 ? "3-9" : "10+"))));
   r.nontrivial = dim >= 4 && (maxchain >= 3 || nsingupd > 0 || nrefac > 0);
-  r.sample = strprintf("dim %d %s, %d updates (longest chain without refactor %d, %d refactors, %d singular replacements)\n", dim, sn[structure & 7], nupd, maxchain, nrefac, nsingupd) + c.str().substr(0, 800);
+  r.sample = strprintf("dim %d %s, %d updates (longest chain without refactor %d, %d refactors, %d singular replacements)\n", dim, sn[structure], nupd, maxchain, nrefac, nsingupd) + c.str().substr(0, 800);
 }
 
 void register_c13() {
